@@ -7,9 +7,9 @@ import common as C
 PROPERTIES = ["C19"]
 MANIFEST = {
     "C19": {
-        "technique": "Lean 4 proof about a model of the path scanners of File.cpp (stack-machine denotation) and of the File/Directory algorithms over an assumed POSIX-like tree + differential correspondence (exhaustive small strings; scratch-directory snapshots with an outside sentinel and interposed sendfile/mkdir faults) + independent Python posixpath/os reference",
-        "text": "Theorems for all path strings (simplifyPath idempotent and denotation preserving, directory+base and stem+extension recomposition, getRelativePath correct exactly when a relative path exists) and for all trees/histories of the file-system model (bytes exact, failed operations leave nothing new, Directory::create result and parents, recursive unlink removes exactly the tree and never follows a symbolic link); the model is tied to the current File.cpp/Directory.cpp on every run by executing identical op lines on both.",
-        "note": "Trusted: Lean kernel + the three standard axioms; the hand translation of File.cpp/Directory.cpp into the model (validated by the correspondence run, not proved); the POSIX semantics of mkdir/rmdir/unlink/rename/open/readdir/stat/lstat/lseek/read/write/sendfile is ASSUMED (it is the Lean definition of the tree operations, compared with the real kernel only by the snapshots of the correspondence run). Outside: permissions, d_type == DT_UNKNOWN file systems, concurrent modification, Windows branches, paths that pass through a symbolic link.",
+        "technique": "Lean 4 proof about (a) a model of the path scanners of File.cpp with a stack-machine denotation of path strings and (b) a model of the File/Directory algorithms over an assumed POSIX-like world (flat tree: directory | file bytes | symbolic link) + differential correspondence model vs real File.cpp/Directory.cpp (exhaustive small strings; scratch-directory snapshots with an outside sentinel, interposed sendfile/mkdir faults, ASan/UBSan) + independent Python reference (own stack machine cross-checked with posixpath; own kernel-like resolver and byte-array file semantics evaluating the laws of C19 on the implementation's observations)",
+        "text": "Theorems for ALL path strings: simplifyPath returns the canonical text of the denotation (hence idempotent, denotation preserving, deciding lexical equivalence), directory+separator+base name and stem+'.'+extension recompose, getRelativePath(from,to) appended to from denotes to exactly when a relative path exists lexically and is empty otherwise (the hypothesis is proved necessary). Theorems for ALL worlds / path strings / injected faults of the file-system model: scripts of write/seek/readAll/size on a File refine a byte array with position; successful copy and rename carry exactly the bytes; failed open/rename/copy leave no new entry (copy: except a transfer fault through a symlinked destination, spelled out); Directory::create returns true iff the directory exists afterwards, then all parents exist, it only adds directories, and it succeeds when only directories are in the way; Directory::unlink only removes entries of the given tree whatever symbolic links it contains (never follows one out), and recursive unlink of an existing plain directory in a well-formed world succeeds and removes exactly the tree. The models are tied to the current sources on every run by executing identical op lines on model and real code.",
+        "note": "Trusted: Lean kernel + propext/Classical.choice/Quot.sound; the hand translation of File.cpp/Directory.cpp (POSIX branches, with fixes/path/*.patch applied) into Nstd/Path/Model.lean and FsLib.lean (validated by the correspondence run, not proved); the POSIX semantics of mkdir/rmdir/unlink/rename/open/readdir/stat/lstat/lseek/read/write/sendfile/symlink is ASSUMED: it is the Lean definition in Nstd/Path/Fs.lean and is compared with the real kernel (ext4/tmpfs under $TMPDIR) only through the snapshots of the correspondence run. Hypotheses of the unlink/rename theorems: well-formed world (names are names, no path stored twice, parents are directories; decidable, checked on every model state the run reaches and proved to be kept by Directory::unlink) and a plain path to the directory (its parent chain consists of real directories; links INSIDE the tree are arbitrary). Only tested by the correspondence, not proved: Directory::open/read listing, rename of directories (subtree move), File::exists/Directory::exists results, the harness-side fault interposition. Outside: permissions, d_type == DT_UNKNOWN file systems, hard links, files unlinked/renamed while open, concurrent modification, Windows branches, '\\' in file-system paths (POSIX treats it as an ordinary byte, File.cpp as a separator), paths climbing above the scratch world, getAbsolutePath/time/isExecutable.",
         "design_ref": "DESIGN.md 3/C19",
     }
 }
@@ -262,9 +262,11 @@ def idempotence_histories(impl_simp_outputs):
 
 def check(ctx):
     ctx.assumptions += [
-        "path strings are C strings (no NUL byte); '/' and '\\\\' are both separators (as in File.cpp on every platform)",
-        "lexical semantics: a path denotes (absolute?, number of leading '..', components); '..' above the root of an absolute path is kept (as File::simplifyPath documents in its unit test), symbolic links are not consulted",
-        "file-system part: POSIX semantics of the system calls is assumed (Lean definitions), no permission failures, d_type is reported by readdir, no concurrent modification",
+        "path strings are C strings (no NUL byte); '/' and '\\' are both separators (as in File.cpp on every platform)",
+        "lexical semantics: a path denotes (absolute?, number of leading '..', components); '..' above the root of an absolute path is kept (File::simplifyPath(\"/../a\") = \"/../a\" is what the library's unit test documents), symbolic links are not consulted",
+        "file-system part: the POSIX semantics of the system calls is ASSUMED (Lean definitions in Nstd/Path/Fs.lean); no permission failures, readdir reports d_type, no concurrent modification, no hard links, no file unlinked/renamed while open",
+        "lseek(fd of a directory, 0, SEEK_END) is non-negative (ext4/tmpfs); sendfile transfers the requested count unless the interposed fault says otherwise",
+        "theorems about Directory::unlink / File::rename assume a well-formed world and (unlink) a plain path; every model state reached in the run is checked for well-formedness by the driver",
     ]
     proof_ok = C.proof_stage(ctx, PROPS, [DRIVER], leanchecker=(ctx.tier == "thorough"))
     harness = C.build_harness(ctx, "path", SOURCES)
@@ -711,6 +713,7 @@ def fs_check(ctx, harness, drv):
     m = [l for l in p.stderr.splitlines() if l.startswith("faults-fired")]
     ctx.cov["faults_fired"] = (m[-1] if m else "none") + f" (in a re-run of {len(fl)} histories with faulted ops); per op the fired count is part of the compared observation"
     ctx.cov["samples"] = ctx.cov.get("samples", []) + [" ; ".join(h) for h in hs[-2:]]
+    ctx.cov["fs_states_checked_wellformed_and_sentinel_unchanged"] = ctx.cov["evaluations"] - ev0
     ctx.cov["rule"] += " || " + ctx.cov["fs_scope"] + "; every op line answers its result and a snapshot of the whole world (scratch + sentinel), compared with the Lean model's tree and checked against the laws of C19 by a Python oracle (own path resolver + byte-array file semantics)"
     cleanup_scratch()
 
